@@ -199,10 +199,10 @@ def run(ck, prop, stream, families_note, variants=None, judge=None, theorems=Non
                 r60_n[0] += 1
                 if h != want or (want != "err" and same != "same"):
                     r60_bad.append(f"case {c['id']} mvp6-0/{K}: reference {ref['stop']} vs model {ref[key]}")
-        # R60d: the same for the class Model.Mvp60.StraightLineLdRet (field r60, seventh digit: straight-line programs with loads, no
-        # stores/branches/jumps/div/rem, `ret` only as the last instruction; the sixth digit is its sub-class without `ret`) --
-        # the statement Props.C05.mvp60_readonly_ret_correct, every evaluated parallelism
-        if mods and ref.get("r60", "0000000")[6:7] == "1" and not ref["stop"].startswith("notwf"):
+        # R60d: the same for the class Model.Mvp60.StraightLineLdR (field r60, eighth digit: straight-line programs with loads, no
+        # stores/branches/jumps/div/rem, `ret` anywhere; the seventh digit is its sub-class with `ret` only as the last instruction,
+        # the sixth the one without `ret`) -- the statement Props.C05.mvp60_readonly_retany_correct, every evaluated parallelism
+        if mods and ref.get("r60", "00000000")[7:8] == "1" and not ref["stop"].startswith("notwf"):
             for K in (1, 2, 3, 4):
                 key = f"m60p{K}"
                 if key not in ref:
@@ -275,9 +275,9 @@ def run(ck, prop, stream, families_note, variants=None, judge=None, theorems=Non
     elif r60_n[0]:
         ck.notes.append(f"R60: {r60_n[0]} runs of programs in the class RegOnly: the MVP-6.0 model agrees with the reference on all of them")
     if r60d_bad:
-        ck.broken.append(f"R60d: the MVP-6.0 model runs {len(r60d_bad)} of {r60d_n[0]} straight-line-with-loads (class StraightLineLdRet) runs differently from the reference; first: {r60d_bad[0]}")
+        ck.broken.append(f"R60d: the MVP-6.0 model runs {len(r60d_bad)} of {r60d_n[0]} straight-line-with-loads (class StraightLineLdR) runs differently from the reference; first: {r60d_bad[0]}")
     elif r60d_n[0]:
-        ck.notes.append(f"R60d: {r60d_n[0]} runs of programs in the class StraightLineLdRet: the MVP-6.0 model agrees with the reference on all of them")
+        ck.notes.append(f"R60d: {r60d_n[0]} runs of programs in the class StraightLineLdR: the MVP-6.0 model agrees with the reference on all of them")
     # 3. violations: one per (variant, verdict-kind), shrunk
     seen = set()
     for c, ref, r, v in bad:
